@@ -384,6 +384,24 @@ pub fn run_replay(path: &str) -> i32 {
     if v.get("direct").is_some() {
         return crate::families::replay_direct(&v);
     }
+    if let Some(name) = v.get("closure").and_then(|n| n.as_str()) {
+        let hist: Vec<u8> = v["history"].as_array().map(|a| a.iter().map(|x| x.as_u64().unwrap_or(0) as u8).collect()).unwrap_or_default();
+        let r = if name.starts_with("C17") { crate::d_c17::replay(name, &hist) } else { crate::d_c10::replay(name, &hist) };
+        let Some((out, trace)) = r else {
+            eprintln!("unknown closure model {}", name);
+            return 2;
+        };
+        for l in trace {
+            println!("{}", l);
+        }
+        return if out.viol.iter().any(|(s, _)| s == sig) {
+            println!("REPRODUCED {}", sig);
+            1
+        } else {
+            println!("not reproduced: {} (violations seen: {:?})", sig, out.viol.iter().map(|x| x.0.clone()).collect::<Vec<_>>());
+            0
+        };
+    }
     let choices: Vec<u8> = v["choices"]
         .as_array()
         .map(|a| a.iter().map(|x| x.as_u64().unwrap_or(0) as u8).collect())
